@@ -172,7 +172,9 @@ def run_docs(case):
                 p = d / f"d{rep}_{f}.pep.xml"
                 p.write_text(text)
                 paths.append(str(p))
-            arg = paths if nfiles > 1 else paths[0]
+            from pathlib import Path as _P
+
+            arg = (paths if rep % 2 else tuple(paths)) if nfiles > 1 else (paths[0] if rep % 2 else _P(paths[0]))
             c = core.Call(mokapot.read_pepxml, arg, decoy_prefix=prefix, to_df=True)
             evals += 1
             extra = dict(files=nfiles, hits=len(rows), prefix=prefix)
